@@ -530,7 +530,7 @@ PRE2 = PRE2[:PRE2.index("Definition check (c : case)")] + """Definition check (c
   let '(s, L', R') := prepare cf L R in
   match xml_format cf o rootns s gs L' with
   | FOk t =>
-      (c_replace cf || run_okb cf o rootns (FS L' s [(Some DIFF_PREFIX, DIFF_NS)]) gs) &&
+      run_okb cf o rootns (FS L' s [(Some DIFF_PREFIX, DIFF_NS)]) gs &&
       xequivb (ws_text cf) (accept t) R' && xequiv_rb (ws_text cf) (reject t) L'
   | FErr _ => true
   end.
@@ -902,7 +902,7 @@ def main(run, focus):
                     except OSError:
                         pass
         bad2 = [idx2[i] for i in b2]
-    idx3 = [i for i in idx2 if not cases[i]["cfg"]["replace"] and attrs_simple(cases[i])]
+    idx3 = [i for i in idx2 if attrs_simple(cases[i])]
     bad3, log3 = [], ""
     if pinfo.get("build_ok") and focus == "C10":
         cname3 = "%sq%s%d" % (focus, run.tier[0], os.getpid())
@@ -923,7 +923,8 @@ def main(run, focus):
             % (len(idx), len(cases) - len(idx), len(bad), focus, judged, len(viols), nknown))
     corr = [{"name": "XMLFormatter.prepare + format (every handler, _xpath, _make_diff_tags, finalize) vs XV.XmlFmt",
              "cases": len(idx), "bad": bad, "log": log, "describe": lambda i: describe(cases[i])},
-            {"name": "TESTED premise run_ok (text updated once, renamed once, plain action strings) and the statements of C09 "
+            {"name": "TESTED premise run_ok (text updated once, renamed once, plain action strings, room for the diff:replace "
+                     "openers with use_replace) and the statements of C09 "
                      "(accept T ~ prepared right) / C10 (reject T ~r prepared left, attributes included) evaluated on the "
                      "model's output, configurations without text tags",
              "cases": len(idx2), "bad": bad2, "log": log2, "describe": lambda i: describe(cases[i])}]
@@ -995,7 +996,8 @@ def main(run, focus):
         "erased), everything else exactly.  Documented sample of the LITERAL rule failing: <p>a<img/>b</p> vs <q>ab</q>, text_tags=p "
         "prints <q diff:rename=\"p\">a<img diff:delete=\"\"/>b</q>, whose literal acceptance is <q>a</q>",
         "theorem premises that are TESTED, not proved: run_ok (each text/tail is updated at most once, a node renamed at most once, "
-        "plain action strings) is evaluated by run_okb on every generated script without text tags (second correspondence component)",
+        "plain action strings; with use_replace: a free private-use code point per character of every new text) is evaluated by "
+        "run_okb on every generated script without text tags, use_replace or not (second correspondence component)",
     ]
     lib.conclude(run, ok, pinfo, corr, firsts, deeper)
 
